@@ -59,27 +59,52 @@ Lemma res_map_plain (r : res value) :
   res_map fst (match r with Ok x => Ok (x, @None value) | Err e => Err e end) = r.
 Proof. now destruct r. Qed.
 
-(* the one call on which the variants differ: sum with a str start (the builtin sum refuses it,
-   the async loop concatenates) *)
-Definition agree_domain (c : call) : bool :=
-  match c with CSum _ (VStr _) => false | _ => true end.
+(* same successful results, and they fail together (the exception may differ when both a getter
+   and an addition fail: the async variant runs every getter before the first addition) *)
+Definition res_sim {X} (r1 r2 : res X) : Prop :=
+  match r1, r2 with Ok a, Ok b => a = b | Err _, Err _ => True | _, _ => False end.
+Lemma res_sim_refl {X} (r : res X) : res_sim r r.
+Proof. destruct r; cbn; auto. Qed.
 
-Lemma run_async_agrees aug c v : agree_domain c = true -> res_map fst (run_async aug c v) = run_sync c v.
+Lemma sum_sim get : forall xs rv,
+  res_sim (match mapM get xs with Ok vs => fold_add rv vs | Err e => Err e end) (sum_go get rv xs).
 Proof.
-  intros Hd.
+  induction xs as [|x r IH]; intros rv; cbn [mapM sum_go fold_add]; [reflexivity|].
+  destruct (get x) as [v|e]; [|exact I].
+  destruct (mapM get r) as [vs|e] eqn:E.
+  - cbn [fold_add]. destruct (vadd rv v) as [rv'|e]; [|exact I]. specialize (IH rv'). exact IH.
+  - destruct (vadd rv v) as [rv'|e']; [|exact I]. specialize (IH rv'). cbn in IH.
+    destruct (sum_go get rv' r); [contradiction|exact I].
+Qed.
+
+Definition is_sum (c : call) : bool := match c with CSum _ _ => true | _ => false end.
+
+Lemma run_async_agrees_exact aug c v : is_sum c = false -> res_map fst (run_async aug c v) = run_sync c v.
+Proof.
+  intros Hs.
   destruct c as [n fill|n fill|cs a|r cs a|cs b r|a dflt cs|cs a|cs a|a start|d a|m|neg t a| | | | | ];
-    cbn [run_async]; try apply res_map_plain.
+    try discriminate Hs; cbn [run_async]; try apply res_map_plain.
   - rewrite res_map_plain. cbn [run_sync]. unfold with_elems. destruct (elems v); [|reflexivity].
     now rewrite auto_to_list_id.
   - rewrite res_map_plain. cbn [run_sync]. unfold with_elems. destruct (elems v); [|reflexivity].
     now rewrite auto_to_list_id.
   - rewrite res_map_plain. cbn [run_sync]. unfold with_elems. destruct (elems v); [|reflexivity].
     now rewrite auto_to_list_id.
-  - cbn [run_sync]. unfold with_elems. destruct (elems v) as [l|e]; [|reflexivity].
-    unfold f_sum_async, f_sum. destruct start; try discriminate Hd;
-      destruct (sum_go (sum_getter a) _ l); reflexivity.
   - rewrite res_map_plain. cbn [run_sync]. unfold with_elems. destruct (elems v); [|reflexivity].
     now rewrite auto_to_list_id.
+Qed.
+
+Lemma run_async_agrees aug c v : res_sim (res_map fst (run_async aug c v)) (run_sync c v).
+Proof.
+  destruct (is_sum c) eqn:Hs; [|rewrite (run_async_agrees_exact aug c v Hs); apply res_sim_refl].
+  destruct c as [n fill|n fill|cs a|r cs a|cs b r|a dflt cs|cs a|cs a|a start|d a|m|neg t a| | | | | ];
+    try discriminate Hs. cbn [run_async run_sync]. unfold with_elems.
+  destruct (elems v) as [l|e]; [|exact I].
+  unfold f_sum_async, f_sum. destruct start as [z|s0| | |sl|dk dv]; try exact I;
+    match goal with |- context [sum_go ?g ?st l] => pose proof (sum_sim g l st) as H end;
+    destruct (mapM (sum_getter a) l) as [vals|e]; cbn in H |- *;
+    try (destruct (fold_add _ vals); destruct (sum_go _ _ l); cbn in H |- *; auto; contradiction);
+    destruct (sum_go _ _ l); cbn in H |- *; auto; contradiction.
 Qed.
 
 (* the caller's start object after async sum *)
@@ -90,5 +115,7 @@ Proof.
   intros H E. unfold f_sum_async in E.
   assert (Hc : aug && is_list start = false).
   { destruct H as [-> | ->]; [reflexivity|apply andb_false_r]. }
-  rewrite Hc in E. destruct (sum_go _ _ xs); try discriminate E. now injection E as _ <-.
+  rewrite Hc in E.
+  destruct start; try discriminate E; destruct (mapM _ xs); try discriminate E;
+    destruct (fold_add _ _); try discriminate E; now injection E as _ <-.
 Qed.
